@@ -32,10 +32,22 @@ func vMkRegion(ti int, id uint64, start, stop []byte) hrpc.RegionInfo {
 	return region.NewInfo(id, ns, []byte(t.table), name, start, stop)
 }
 
+// vNamespaced: the two tables of the harness are "t" and "n:t" instead of "t" and "tt".
+var vNamespaced bool
+
+// VerifCachePutNamespace is VerifCachePut over two tables that differ in their namespace only.
+func VerifCachePutNamespace() {
+	vNamespaced = true
+	VerifCachePut()
+}
+
 // vSymRegion: an arbitrary well-formed region: table among the first T tables, start/stop keys
 // of at most KL bytes (empty stop = unbounded), start < stop, one-digit id.
 func vSymRegion() (hrpc.RegionInfo, int) {
 	ti := verifChoose(verifParam("T"))
+	if vNamespaced && ti == 1 {
+		ti = 2 // tables "t" and "n:t": the same bare table name in two namespaces
+	}
 	start := verifBytes(verifParam("KL"))
 	stop := verifBytes(verifParam("KL"))
 	id := verifInt(1, 9)
